@@ -5,9 +5,10 @@
      background prefix, colour suffix, underline and bold sequences, and the colour-code map (a Go
      map[Colour]string; a missing key reads as "" exactly like the Go map);
    - [seqs], [format], [format_and_restore] are Styler.seqs / Format / FormatAndRestore;
-   - [strip] is StripAllAnsiSequences = regexp `\x1b\[[\d;]+m`, ReplaceAllString(text, ""):
-     leftmost, non-overlapping; RE2's \d is ASCII 0-9 only; the pattern has no alternatives, and `m`
-     is not in the class, so "the match at a position" is unique: ESC [ (one or more of 0-9 ;) m;
+   - [strip] is StripAllAnsiSequences = regexp `\x1b\[[\d;]*m` (since 332f4bb; `+` before, which missed
+     the parameterless reset ESC [ m), ReplaceAllString(text, ""): leftmost, non-overlapping; RE2's \d
+     is ASCII 0-9 only; the pattern has no alternatives, and `m` is not in the class, so "the match
+     at a position" is unique: ESC [ (any number of 0-9 ;) m;
    - documents are trees [piece]; [render th outer x] builds the output the way the Go code nests
      Format (top level) and FormatAndRestore (inside another style). *)
 From Klog Require Import Base.Prelude Base.Utf8.
@@ -35,7 +36,7 @@ Definition sgr_len (s : bytes) : nat :=
   | e :: b :: r =>
     if (e =? c_esc) && (b =? c_lbr) then
       let n := params_len r in
-      if Nat.ltb 0 n && (match nth_error r n with Some c => c =? c_m | None => false end)
+      if (match nth_error r n with Some c => c =? c_m | None => false end)
       then (3 + n)%nat else O
     else O
   | _ => O
